@@ -390,7 +390,9 @@ func c03Setup(t *rapid.T, salt string) *c03Env {
 	return e
 }
 
-var c03Routes = []string{"plain", "multi", "authz1", "authz2", "plainByGranteeOfAttacker"}
+// multiAfterOwnGrant / multiBeforeOwnGrant: the signer holds a fee grant from the attacker's own second account and puts
+// a legitimate message in that account's name (covered by the grant) before / after the forged one in the same tx.
+var c03Routes = []string{"plain", "multi", "authz1", "authz2", "plainByGranteeOfAttacker", "multiAfterOwnGrant", "multiBeforeOwnGrant"}
 
 func c03Groups() []string {
 	seen := map[string]bool{}
@@ -467,7 +469,7 @@ func c03Case(t *rapid.T, tpls []c03Template) {
 		B := victimOf(tpl.victim)
 		A := e.attacker
 		signer := A
-		if route == "plainByGranteeOfAttacker" {
+		if route == "plainByGranteeOfAttacker" || route == "multiAfterOwnGrant" || route == "multiBeforeOwnGrant" {
 			signer = e.grantee
 		}
 		// principal assignment: every principal field is A or B, at least one is B
@@ -504,6 +506,13 @@ func c03Case(t *rapid.T, tpls []c03Template) {
 		switch route {
 		case "multi":
 			msgs = []sdk.Msg{banktypes.NewMsgSend(signer.Addr, signer.Addr, sdk.NewCoins(sdk.NewCoin(chain.BondDenom, sdkmath.NewInt(1)))), msg}
+		case "multiAfterOwnGrant", "multiBeforeOwnGrant":
+			own := &tftypes.MsgCreateDenom{Metadata: chain.MDAs(e.attacker.Addr, signer), Subdenom: fmt.Sprintf("own%d", i)}
+			if route == "multiAfterOwnGrant" {
+				msgs = []sdk.Msg{own, msg}
+			} else {
+				msgs = []sdk.Msg{msg, own}
+			}
 		case "authz1":
 			ex := authz.NewMsgExec(signer.Addr, []sdk.Msg{msg})
 			msgs = []sdk.Msg{&ex}
@@ -564,7 +573,8 @@ func c03Case(t *rapid.T, tpls []c03Template) {
 	ctrl := 0
 	ka := &vtypes.MsgKeepAlive{Metadata: chain.MD(e.vb.Actor), PigeonVersion: "v2.1.0"}
 	kaP := &vtypes.MsgKeepAlive{Metadata: chain.MDAs(e.vb.Addr, e.pigeon), PigeonVersion: "v2.2.0"}
-	res, err := c.Block(c.MustSign(e.vb.Actor, ka), c.MustSign(e.pigeon, kaP))
+	ownCtl := &tftypes.MsgCreateDenom{Metadata: chain.MDAs(e.attacker.Addr, e.grantee), Subdenom: "ownctl"}
+	res, err := c.Block(c.MustSign(e.vb.Actor, ka), c.MustSign(e.pigeon, kaP), c.MustSign(e.grantee, ownCtl))
 	if err != nil {
 		t.Fatalf("block: %v", err)
 	}
@@ -573,8 +583,8 @@ func c03Case(t *rapid.T, tpls []c03Template) {
 			ctrl++
 		}
 	}
-	if ctrl != 2 {
-		t.Fatalf("positive control failed: principal / fee-grantee could not act (%d of 2): %s | %s", ctrl, res.TxResults[0].Log, res.TxResults[1].Log)
+	if ctrl != 3 {
+		t.Fatalf("positive control failed: principal / fee-grantee could not act (%d of 3): %s | %s | %s", ctrl, res.TxResults[0].Log, res.TxResults[1].Log, res.TxResults[2].Log)
 	}
 	labels := []string{fmt.Sprintf("accepted=%d", accepted), fmt.Sprintf("authRejected>=%d", authRejected/4*4)}
 	for _, l := range log {
